@@ -852,7 +852,9 @@ func durationNeighbourhood() *core.Family {
 
 func ipFamily() *core.Family {
 	v4 := [][4]byte{{0, 0, 0, 0}, {127, 0, 0, 1}, {255, 255, 255, 255}, {10, 1, 2, 3}, {224, 0, 0, 1}, {192, 168, 100, 200}}
-	v6 := [][16]byte{{}, {15: 1}, {0: 0xff, 1: 0xff, 2: 0xff, 3: 0xff, 4: 0xff, 5: 0xff, 6: 0xff, 7: 0xff, 8: 0xff, 9: 0xff, 10: 0xff, 11: 0xff, 12: 0xff, 13: 0xff, 14: 0xff, 15: 0xff}, {0: 0x20, 1: 0x01, 2: 0x0d, 3: 0xb8, 15: 1}, {0: 0xff, 15: 2}, {0: 0x20, 1: 0x01, 6: 0, 7: 1, 8: 0, 9: 1, 14: 0, 15: 1}}
+	v6 := [][16]byte{{}, {15: 1}, {0: 0xff, 1: 0xff, 2: 0xff, 3: 0xff, 4: 0xff, 5: 0xff, 6: 0xff, 7: 0xff, 8: 0xff, 9: 0xff, 10: 0xff, 11: 0xff, 12: 0xff, 13: 0xff, 14: 0xff, 15: 0xff}, {0: 0x20, 1: 0x01, 2: 0x0d, 3: 0xb8, 15: 1}, {0: 0xff, 15: 2}, {0: 0x20, 1: 0x01, 6: 0, 7: 1, 8: 0, 9: 1, 14: 0, 15: 1},
+		// IPv4-mapped (::ffff:a.b.c.d), IPv4-compatible (::a.b.c.d) and NAT64 (64:ff9b::/96) addresses: Go prints the first kind with a dotted quad
+		{10: 0xff, 11: 0xff, 12: 192, 13: 0, 14: 2, 15: 128}, {10: 0xff, 11: 0xff, 15: 1}, {12: 192, 13: 0, 14: 2, 15: 128}, {0: 0, 1: 0x64, 2: 0xff, 3: 0x9b, 12: 192, 13: 0, 14: 2, 15: 128}}
 	var vals []Val
 	for _, a := range v4 {
 		for p := 0; p <= 32; p++ {
@@ -867,7 +869,7 @@ func ipFamily() *core.Family {
 	lits := gen.ExtLits["ip"]
 	return &core.Family{
 		Name: "ipaddr",
-		Desc: fmt.Sprintf("every prefix length (0-32, 0-128) on 6+6 addresses (%d values): printed form parses back to the same value and is valid by the reference recogniser; %d valid / obviously invalid literal forms judged by the reference recogniser", len(vals), len(lits)),
+		Desc: fmt.Sprintf("every prefix length (0-32, 0-128) on 6+10 addresses incl. IPv4-mapped / IPv4-compatible / NAT64 ones (%d values): printed form parses back to the same value and is valid by the reference recogniser; %d valid / obviously invalid literal forms judged by the reference recogniser", len(vals), len(lits)),
 		N:    int64(len(vals) + len(lits)),
 		Run: func(t *core.T, i int64) {
 			t.Nontrivial()
@@ -894,6 +896,10 @@ func ipFamily() *core.Family {
 			t.Sample(s)
 			back, err := types.ParseIPAddr(s)
 			if err != nil {
+				if v.V6 && v.Addr[10] == 0xff && v.Addr[11] == 0xff && v.Addr[0] == 0 && v.Addr[9] == 0 {
+					t.Fail("ip-printed-form-rejected:ipv4-mapped-ipv6", v.Key()+" -> "+s, "parses", err.Error())
+					return
+				}
 				t.Fail("ip-roundtrip-error", v.Key()+" -> "+s, "parses", err.Error())
 				return
 			}
